@@ -63,8 +63,13 @@ class ExprMixin:
                 # bound on some of the paths that reach this read only: UnboundLocalError on the others
                 self.raise_star(st, out)
                 self.maybe_unbound.append((frame.func.qual, n.id, getattr(n, "lineno", 0)))
+            for t in st.env[n.id]:
+                if tag(t) == "func" and t[1] in self.p.funcs and self.p.funcs[t[1]].parent is frame.func:
+                    # a nested function taken as a value (handed on as an argument): remember the locals it closes over
+                    self.closure_env[t[1]] = dict(st.env)
             return st.env[n.id], st
         if n.id in frame.localfuncs:
+            self.closure_env[frame.localfuncs[n.id].qual] = dict(st.env)
             return V(("func", frame.localfuncs[n.id].qual)), st
         if n.id in self.p.classes:
             return V(("class", n.id)), st
@@ -277,7 +282,10 @@ class ExprMixin:
         return v, st
 
     def ex_Lambda(self, n, st, frame, out):
-        return V(("unknown", n.lineno)), st
+        # a closure value: its body is evaluated, where it is called, in the locals it was created in (plus its parameters)
+        lid = ("lambda", (frame.func.qual, n.lineno, n.col_offset, frame.ctx))
+        self.lambdas[lid] = (n, frame, dict(st.env))
+        return V(lid), st
 
     def ex_Slice(self, n, st, frame, out):
         return V(("unknown", getattr(n, "lineno", 0))), st
@@ -624,7 +632,7 @@ class ExprMixin:
         if tg in ("join", "root", "tmpname", "sibling", "H", "cat", "content", "inst", "obj", "tmpfile",
                   "handle", "self", "list", "listof", "dictlit", "tuple", "shard", "bool", "probe",
                   "strop", "int", "parent", "name", "hashof", "dictzip", "listdir", "listed", "dictobj",
-                  "func", "boundmethod", "class", "module", "excobj"):
+                  "func", "boundmethod", "class", "module", "excobj", "lambda"):
             return False
         return None  # unknown
 
@@ -960,7 +968,7 @@ class ExprMixin:
         if name in frame.localfuncs and name not in st.env:
             args, kw, st = self.eval_args(n, st, frame, out)
             return self.inline(frame.localfuncs[name], args, kw, st, frame, n, out, closure=True)
-        if name in st.env and any(tag(t) in ("func", "boundmethod") for t in st.env[name]):
+        if name in st.env and any(tag(t) in ("func", "boundmethod", "lambda") for t in st.env[name]):
             # a local that holds functions / bound methods (picked from a table, passed as an argument): every one it may hold
             args, kw, st = self.eval_args(n, st, frame, out)
             return self.call_value(st.env[name], args, kw, n, st, frame, out)
@@ -1196,7 +1204,9 @@ class ExprMixin:
                         res |= dflt
                 return frozenset(res), st
             return v, st
-        if meth == "with_name" or is_rooted(r) or tg in ("join", "sibling", "parent", "tmpname"):
+        if meth == "with_name" or is_rooted(r) or tg in ("join", "sibling", "parent", "tmpname") \
+                or (tg in ("param", "iattr", "item", "strop") and meth in ("read_text", "read_bytes", "write_text", "write_bytes", "mkdir", "unlink",
+                                                                            "is_file", "is_dir", "iterdir", "glob", "rglob", "touch", "rename", "relative_to")):
             # pathlib methods on a path term
             if meth == "with_name":
                 # the new name keeps only its shape: which path its stem/suffix came from is
@@ -1238,6 +1248,9 @@ class ExprMixin:
             if meth in ("read_text", "read_bytes"):
                 self.raise_star(st, out)
                 return V(("content", r)), self.emit("READ", "Path." + meth, [V(r)], n, st, frame, extra={"mode": "r"})
+            if meth == "relative_to":
+                # a PATH OBJECT for the part of r below the argument (not a string: it never equals a str)
+                return frozenset(("relto", r, a) for a in (args[0] if args else EMPTY)), st
             if meth in ("as_posix", "resolve", "absolute", "__str__", "__fspath__"):
                 return V(r), st
             if meth in ("joinpath",):
@@ -1309,6 +1322,21 @@ class ExprMixin:
                     res |= v
                     cur = join(cur, s2)
                 continue
+            if tg == "lambda" and t in self.lambdas:
+                ln, lframe, lenv = self.lambdas[t]
+                env2 = dict(lenv)
+                for i_, pa in enumerate(ln.args.args):
+                    if i_ < len(args):
+                        env2[pa.arg] = args[i_]
+                    elif pa.arg in kw:
+                        env2[pa.arg] = kw[pa.arg]
+                try:
+                    v, s2 = self.eval(ln.body, st.set(env=env2), lframe, out)
+                except Abort:
+                    continue
+                res |= v
+                cur = join(cur, s2.set(env=st.env))
+                continue
             if tg == "class":
                 v, s2 = self.construct(t[1], args, kw, n, st, frame, out)
                 res |= v
@@ -1346,7 +1374,13 @@ class ExprMixin:
         params = [x.arg for x in a.posonlyargs + a.args]
         env = {}
         if closure:
-            env.update(st.env)  # closures read the enclosing frame
+            # closures read the enclosing frame: its current locals when called from there, the locals it had when the function
+            # was handed on as a value (snapshot) when called from somewhere else (an `action` argument of a helper)
+            snap = self.closure_env.get(qual)
+            if snap is not None and f.parent is not None and frame.func is not f.parent and frame.func.parent is not f.parent:
+                env.update(snap)
+            else:
+                env.update(st.env)
         pos = list(args)
         defaults = list(a.defaults)
         ndef = len(defaults)
@@ -1396,6 +1430,20 @@ class ExprMixin:
         if o.ret is None:
             return EMPTY, None
         callrec["ret"] = o.retval
+        if closure and f.parent is not None:
+            # names the nested function declares `nonlocal`: its assignments are visible to the enclosing function and to the
+            # sibling closures (which may run later, from somewhere else, with the locals remembered for them)
+            nl = {nm for x in ast.walk(f.node) if isinstance(x, ast.Nonlocal) for nm in x.names}
+            for nm in nl:
+                if nm in o.ret.env:
+                    val = o.ret.env[nm]
+                    if frame.func is f.parent:
+                        caller_env = dict(caller_env)
+                        caller_env[nm] = val
+                    for q2, snap2 in self.closure_env.items():
+                        g2 = self.p.funcs.get(q2)
+                        if g2 is not None and g2.parent is f.parent:
+                            snap2[nm] = val
         after = o.ret.set(env=caller_env)
         callrec["after"] = after
         dn = set(after.done)
